@@ -111,8 +111,9 @@ Definition parse_packet_adaptation_field : IM PacketAdaptationField :=
             PacketAdaptationField_HasTransportPrivateData := false;
             PacketAdaptationField_HasSplicingCountdown := false |}.
 
-(* parsePacket; the skipper sees header and adaptation field, Payload = nil *)
-Definition parse_packet (skip : Packet -> bool) : IM Packet :=
+(* parsePacket up to the point where the skipper is consulted: sync byte, header, adaptation field.
+   Returns the packet with Payload = nil and the offset the header started at. *)
+Definition parse_packet_head : IM (Packet * Z) :=
   b <- next_byte ;;
   if negb (b =? syncByte) then ierr E_sync else
   len <- ilength ;;
@@ -120,13 +121,22 @@ Definition parse_packet (skip : Packet -> bool) : IM Packet :=
   offsetStart <- ioffset ;;
   h <- parse_packet_header ;;
   af <- (if PacketHeader_HasAdaptationField h then a <- parse_packet_adaptation_field ;; iret (Some a) else iret None) ;;
-  let p0 := {| Packet_AdaptationField := af; Packet_Header := h; Packet_Payload := [] |} in
-  if skip p0 then ierr E_skipped else
+  iret ({| Packet_AdaptationField := af; Packet_Header := h; Packet_Payload := [] |}, offsetStart).
+
+(* the rest of parsePacket: payload extraction *)
+Definition parse_packet_tail (p0 : Packet) (offsetStart : Z) : IM Packet :=
+  let h := Packet_Header p0 in
+  let af := Packet_AdaptationField p0 in
   if PacketHeader_HasPayload h then
     iseek (payloadOffset offsetStart h (odflt zero_PacketAdaptationField af)) ;;;
     pl <- idump ;;
     iret {| Packet_AdaptationField := af; Packet_Header := h; Packet_Payload := pl |}
   else iret p0.
+
+(* parsePacket; the skipper sees header and adaptation field, Payload = nil *)
+Definition parse_packet (skip : Packet -> bool) : IM Packet :=
+  '(p0, offsetStart) <- parse_packet_head ;;
+  if skip p0 then ierr E_skipped else parse_packet_tail p0 offsetStart.
 
 Definition no_skip (_ : Packet) : bool := false.
 Definition parse_packet_bytes (bs : list Z) : res Packet := run_iter (parse_packet no_skip) bs.
